@@ -153,6 +153,12 @@ namespace vh {
       chai.add(fun([]() -> int { throw 17; }), "throw_cint");
       chai.add(fun([](const Boxed_Value &bv) -> int { throw bv; }), "throw_bv");
       chai.add(fun([]() -> int { throw exception::eval_error("ee from C++"); }), "throw_ee");
+      // the same throwers behind a double parameter: called with an int they are reached through the conversion route of dispatch (C10)
+      chai.add(fun([](double) -> int { throw std::runtime_error("x"); }), "throw_runtime_d");
+      chai.add(fun([](double) -> int { throw std::out_of_range("oor"); }), "throw_range_d");
+      chai.add(fun([](double) -> int { throw std::logic_error("logic"); }), "throw_logic_d");
+      chai.add(fun([](double) -> int { throw exception::eval_error("ee from C++"); }), "throw_ee_d");
+      chai.add(fun([](double) -> int { throw UserEx{5}; }), "throw_user_d");
       // instrumented class (C11)
       chai.add(user_type<Tk>(), "Tk");
       chai.add(constructor<Tk()>(), "Tk");
